@@ -441,6 +441,9 @@ func (g *Gen) scenario(profile string) {
 // orders forced onto replicas, the real packed block.
 func (g *Gen) check() {
 	e := g.e
+	if e.broken {
+		return
+	}
 	if a := g.emit("sync"); a != "-" {
 		g.out.Stats.Notes = append(g.out.Stats.Notes, "sync failed: "+a)
 		return
